@@ -205,6 +205,17 @@ func runMass12(p mass12Params, c massCfg, fail func(string, ...interface{})) []s
 			fail("Search(S = s%d) collects %d objects (err=%v), %d stored objects have that value (configuration %+v)", v, len(objs), err, want, c)
 		}
 	}
+	// a pattern search over the whole (indexed) field: every object, in index order
+	if robjs, rerr := db.Search(&Mass{}, "S", "~=", "^(s|upd)").Collect(); rerr != nil || len(robjs) != len(model) {
+		fail("Search(S ~= ^(s|upd)) collects %d objects (err=%v), %d are stored (configuration %+v)", len(robjs), rerr, len(model), c)
+	} else {
+		for i := 1; i < len(robjs); i++ {
+			if robjs[i-1].(*Mass).S < robjs[i].(*Mass).S {
+				fail("Search(S ~= ^(s|upd)) on %d objects is not in index order: result %d has S=%q, result %d has S=%q (configuration %+v)", len(robjs), i-1, robjs[i-1].(*Mass).S, i, robjs[i].(*Mass).S, c)
+			}
+		}
+		tr("regex all %d", len(robjs))
+	}
 	var keys []int64
 	err = db.AssignIndex(&Mass{}, "K", &keys)
 	tr("assignindex %d %s", len(keys), classify(err))
